@@ -6,7 +6,7 @@ EXPLANATION = ("Offset-kind analysis (units-of-measure discipline over byte offs
                "comparisons need equal kinds, Rel+Base=Abs exactly once; reset is total and writes only cursor fields; the "
                "stored offset equals the base of the new cursor and is clamped. Token-stream equality with a fresh scan of "
                "input[o..] is not decided separately (it follows from these clauses plus C04.c).")
-RULES = {"C10.a", "C10.b", "C10.c", "C01.e", "C04.c"}
+RULES = {"C10.a", "C10.b", "C10.c", "C01.e", "C04.c", "C09.a"}
 
 
 def check(ctx):
